@@ -21,6 +21,21 @@ CIR = "pyimpspec.circuit.circuit"
 PKG = "pyimpspec.circuit"
 
 
+WRAPPERS: Dict[str, object] = {}  # name → FuncInfo of child-evaluation wrappers (every return is <param>._impedance(…)/to_sympy(…))
+
+
+def find_wrappers(model) -> None:
+    WRAPPERS.clear()
+    for q, fi in model.funcs.items():
+        if not fi.module.startswith(PKG) or "." in fi.qual:
+            continue
+        params = [a.arg for a in fi.node.args.args]
+        rets = [n for n in walk_ordered(fi.node) if isinstance(n, ast.Return)]
+        if rets and all(isinstance(r.value, ast.Call) and isinstance(r.value.func, ast.Attribute) and r.value.func.attr in ("_impedance", "to_sympy")
+                        and isinstance(r.value.func.value, ast.Name) and r.value.func.value.id in params for r in rets):
+            WRAPPERS[fi.node.name] = fi
+
+
 def _strip_index(node: ast.AST) -> ast.AST:
     """Z[idx] → Z (point-wise evaluation: an index selects points, it does not change the law)."""
     class T(ast.NodeTransformer):
@@ -29,6 +44,8 @@ def _strip_index(node: ast.AST) -> ast.AST:
 
         def visit_Call(self, n):
             if isinstance(n.func, ast.Attribute) and n.func.attr in ("to_sympy", "_impedance"):
+                return ast.Name(id="__child__", ctx=ast.Load())
+            if isinstance(n.func, ast.Name) and n.func.id in WRAPPERS:
                 return ast.Name(id="__child__", ctx=ast.Load())
             return self.generic_visit(n)
     return T().visit(ast.parse(norm(node), mode="eval").body)
@@ -114,6 +131,7 @@ def check(ctx: Ctx) -> None:
     ctx.rule("R1.5", "construction independence: parse_cdc and CircuitBuilder both go through Parser().process; Circuit.__init__ binds a Series of elements/connections; no list nested in a connection's list")
     ctx.rule("R1.6", "entry points share one evaluator: Circuit/Connection/Element.get_impedances return _calculate_impedances(...); simulate_spectrum pairs Z with the frequencies it evaluated")
 
+    find_wrappers(model)
     child = sp.Symbol("Z_k")
     # ---------------- R1.1 ---------------------------------------------------------
     for mod, qual, law in ((SER, "Series._impedance", "sum"), (PAR, "Parallel._impedance", "recip"),
@@ -243,6 +261,14 @@ def check(ctx: Ctx) -> None:
                 hv = prov[1].target.id if isinstance(prov[1].target, ast.Name) else var
                 dyn_sites.append((prov[0].module, prov[0].qual, hv, kind))
                 continue
+        # the kind dispatch may live in a child-evaluation wrapper the site calls with the child as argument
+        wcall = [c for c in calls_in(fi0.node) if isinstance(c.func, ast.Name) and c.func.id in WRAPPERS and any(norm(a) == var for a in c.args)]
+        if wcall:
+            w = WRAPPERS[wcall[0].func.id]
+            pos = [norm(a) for a in wcall[0].args].index(var)
+            dyn_sites.append((w.module, w.qual, w.node.args.args[pos].arg, kind))
+            ctx.note(f"{qual}: children are evaluated through the wrapper {w.qual}; its dispatch chain is the site")
+            continue
         dyn_sites.append((mod, qual, var, kind))
     seen_sites = set()
     for mod, qual, var, kind in dyn_sites:
@@ -269,6 +295,13 @@ def check(ctx: Ctx) -> None:
             else:
                 if cur.orelse:
                     arms.append((["<else>"], cur.orelse))
+                else:
+                    # implicit else: every arm returns, the statements after the chain handle the remaining kind
+                    from ..cfg import block_of
+                    _p, _f, blk = block_of(chain)
+                    rest = blk[[i for i, x in enumerate(blk) if x is chain][0] + 1:] if blk else []
+                    if rest and all(always_exits(b) for _, b in arms):
+                        arms.append((["<else>"], rest))
                 break
         ctx.instance("R1.3", f"{qual}: arms {[a for a, _ in arms]}")
         # ordering: a later arm's class must not be a subclass of an earlier arm's class
@@ -342,26 +375,123 @@ def check(ctx: Ctx) -> None:
         ctx.ok()
     else:
         ctx.violation("R1.4", "_calculate_impedances:negative", BASE, ci.node, "negative frequencies are not refused before evaluation")
-    ctx.instance("R1.4", "limit path takes exactly f == 0 and isinf(f)")
-    lim = [n for n in walk_ordered(ci.node) if isinstance(n, (ast.Assign, ast.AnnAssign)) and norm(n.targets[0] if isinstance(n, ast.Assign) else n.target) == "limit_indices"]
-    if len(lim) == 1:
-        srcs = sorted(norm(c.args[0]) for c in calls_in(lim[0].value) if dotted(c.func) == "where")
-        if srcs == ["f == 0.0", "isinf(f)"] or srcs == ["f == 0", "isinf(f)"]:
-            ctx.ok()
-        else:
-            ctx.violation("R1.4", "_calculate_impedances:limit-set", BASE, lim[0], f"limit path selects {srcs}; expected exactly f == 0 and isinf(f)")
+    # index sets over the point classes {zero, finite, inf} (negative frequencies were refused above): a finite abstract
+    # interpretation of the statements that build index arrays, whatever numpy idiom they use
+    U = frozenset({"zero", "finite", "inf"})
+
+    class Tolerant(Exception):
+        pass
+
+    def pset(e: ast.AST, env) -> Optional[frozenset]:
+        if isinstance(e, ast.Name):
+            return env.get(e.id)
+        if isinstance(e, ast.Compare) and len(e.ops) == 1 and norm(e.left) == "f" and isinstance(e.comparators[0], ast.Constant) and e.comparators[0].value == 0:
+            return {ast.Eq: frozenset({"zero"}), ast.NotEq: U - {"zero"}, ast.Gt: U - {"zero"}, ast.LtE: frozenset({"zero"}), ast.GtE: U, ast.Lt: frozenset()}.get(type(e.ops[0]))
+        if isinstance(e, ast.Call):
+            fn_ = dotted(e.func).split(".")[-1]
+            if fn_ in ("isinf", "isposinf") and e.args and norm(e.args[0]) == "f":
+                return frozenset({"inf"})
+            if fn_ == "isfinite" and e.args and norm(e.args[0]) == "f":
+                return U - {"inf"}
+            if fn_ in ("isclose", "allclose"):
+                raise Tolerant(norm(e))
+            if fn_ in ("logical_or", "logical_and") and len(e.args) == 2:
+                a_, b_ = pset(e.args[0], env), pset(e.args[1], env)
+                if a_ is None or b_ is None:
+                    return None
+                return a_ | b_ if fn_ == "logical_or" else a_ & b_
+            if fn_ == "logical_not" and e.args:
+                a_ = pset(e.args[0], env)
+                return None if a_ is None else U - a_
+            # index-array constructors
+            if fn_ in ("unique", "sort", "array", "asarray") and e.args:
+                return pset(e.args[0], env)
+            if fn_ == "concatenate" and e.args and isinstance(e.args[0], (ast.Tuple, ast.List)):
+                parts = [pset(x, env) for x in e.args[0].elts]
+                return None if any(x is None for x in parts) else frozenset().union(*parts)
+            if fn_ in ("delete", "setdiff1d") and len(e.args) >= 2:
+                a_, b_ = pset(e.args[0], env), pset(e.args[1], env)
+                return None if a_ is None or b_ is None else a_ - b_
+            if fn_ == "union1d" and len(e.args) == 2:
+                a_, b_ = pset(e.args[0], env), pset(e.args[1], env)
+                return None if a_ is None or b_ is None else a_ | b_
+            if fn_ == "intersect1d" and len(e.args) == 2:
+                a_, b_ = pset(e.args[0], env), pset(e.args[1], env)
+                return None if a_ is None or b_ is None else a_ & b_
+            if fn_ in ("flatnonzero",) and e.args:
+                return pset(e.args[0], env)
+            if fn_ in ("arange",) and e.args and norm(e.args[0]) in ("f.size", "len(f)", "Z.size", "len(Z)", "f.shape[0]", "Z.shape[0]"):
+                return U
+            return None
+        if isinstance(e, ast.Subscript) and norm(e.slice) == "0" and isinstance(e.value, ast.Call):
+            fn_ = dotted(e.value.func).split(".")[-1]
+            if fn_ in ("where", "nonzero") and len(e.value.args) == 1:
+                return pset(e.value.args[0], env)
+            if fn_ in ("indices", "array_indices") and e.value.args and norm(e.value.args[0]) in ("Z.shape", "f.shape"):
+                return U
+            return None
+        if isinstance(e, ast.BinOp) and isinstance(e.op, (ast.BitOr, ast.BitAnd)):
+            a_, b_ = pset(e.left, env), pset(e.right, env)
+            if a_ is None or b_ is None:
+                return None
+            return a_ | b_ if isinstance(e.op, ast.BitOr) else a_ & b_
+        if isinstance(e, ast.UnaryOp) and isinstance(e.op, ast.Invert):
+            a_ = pset(e.operand, env)
+            return None if a_ is None else U - a_
+        if isinstance(e, ast.Compare) and len(e.ops) == 1 and isinstance(e.left, ast.Call) and dotted(e.left.func) in ("abs", "fabs"):
+            raise Tolerant(norm(e))
+        return None
+
+    ienv: Dict[str, frozenset] = {}
+    stores = []  # (statement, index expr set, value)
+    tolerant = None
+
+    def scan(stmts):
+        nonlocal tolerant
+        for st_ in stmts:
+            if isinstance(st_, (ast.Assign, ast.AnnAssign)) and st_.value is not None:
+                tg_ = st_.targets[0] if isinstance(st_, ast.Assign) else st_.target
+                if isinstance(tg_, ast.Name):
+                    try:
+                        v_ = pset(st_.value, ienv)
+                    except Tolerant as t_:
+                        tolerant = (st_, str(t_))
+                        v_ = None
+                    if v_ is not None:
+                        ienv[tg_.id] = v_
+                    else:
+                        ienv.pop(tg_.id, None)
+                elif isinstance(tg_, ast.Subscript) and norm(tg_.value) == "Z":
+                    try:
+                        stores.append((st_, pset(tg_.slice, ienv), st_.value, norm(tg_.slice)))
+                    except Tolerant as t_:
+                        tolerant = (st_, str(t_))
+            elif isinstance(st_, ast.If) and (".size > 0" in norm(st_.test) or norm(st_.test).startswith("len(")):
+                scan(st_.body)  # acting on an empty index set is the identity: the guard does not change the sets
+    scan(body)
+    ctx.instance("R1.4", "limit path takes exactly the points with f == 0 or f infinite; the finite path takes exactly the others")
+    lim_st = [x for x in stores if "_calculate_limit" in norm(x[2])]
+    fin_st = [x for x in stores if isinstance(x[2], ast.Call) and dotted(x[2].func) == "func"]
+    if tolerant is not None:
+        ctx.violation("R1.4", "_calculate_impedances:limit-set", BASE, tolerant[0], f"the limit/finite split uses the tolerance test {tolerant[1]}: small positive frequencies would be evaluated as the DC limit")
+    elif len(lim_st) != 1 or len(fin_st) != 1:
+        raise AnalysisError(f"_calculate_impedances: expected one limit store and one finite store into Z (found {len(lim_st)}, {len(fin_st)})")
+    elif fin_st[0][1] is None and norm(fin_st[0][2].args[0]) != f"f[{fin_st[0][3]}]":
+        pass  # reported by the index-pairing rule below
+    elif lim_st[0][1] is None or fin_st[0][1] is None:
+        raise AnalysisError(f"_calculate_impedances: index sets {lim_st[0][3]} / {fin_st[0][3]} are built with an idiom the index-set interpreter does not know")
+    elif lim_st[0][1] == frozenset({"zero", "inf"}) and fin_st[0][1] == frozenset({"finite"}):
+        ctx.ok()
     else:
-        raise AnalysisError("_calculate_impedances: limit_indices definition not found")
+        ctx.violation("R1.4", "_calculate_impedances:limit-set", BASE, lim_st[0][0],
+                      f"the limit path takes the points {sorted(lim_st[0][1])} and the finite path {sorted(fin_st[0][1])}; expected ['inf', 'zero'] and ['finite'] (every point exactly once)")
     ctx.instance("R1.4", "Z[indices] = func(f[indices])")
-    st = [n for n in walk_ordered(ci.node) if isinstance(n, ast.Assign) and isinstance(n.targets[0], ast.Subscript) and norm(n.targets[0].value) == "Z"
-          and isinstance(n.value, ast.Call) and dotted(n.value.func) == "func"]
-    if len(st) == 1 and norm(st[0].value.args[0]) == f"f[{norm(st[0].targets[0].slice)}]":
+    if len(fin_st) == 1 and norm(fin_st[0][2].args[0]) == f"f[{fin_st[0][3]}]":
         ctx.ok()
     else:
         ctx.violation("R1.4", "_calculate_impedances:index-pairing", BASE, ci.node, "finite-frequency results are not stored at the indices they were evaluated for")
-    ctx.instance("R1.4", "limit results stored at limit_indices from f[limit_indices]")
-    st2 = [n for n in walk_ordered(ci.node) if isinstance(n, ast.Assign) and norm(n.targets[0]) == "Z[limit_indices]"]
-    if len(st2) == 1 and "f[limit_indices]" in norm(st2[0].value) and "_calculate_limit(obj, _)" in norm(st2[0].value):
+    ctx.instance("R1.4", "limit results stored at the limit indices, computed from f at those indices")
+    if len(lim_st) == 1 and f"f[{lim_st[0][3]}]" in norm(lim_st[0][2]) and "_calculate_limit(obj, _)" in norm(lim_st[0][2]):
         ctx.ok()
     else:
         ctx.violation("R1.4", "_calculate_impedances:limit-pairing", BASE, ci.node, "limit values are not computed from f[limit_indices] and stored at limit_indices")
